@@ -83,3 +83,37 @@ func TestPPTXSlidePartsWithOtherNames(t *testing.T) {
 		t.Fatalf("slides not in the order of the presentation's slide list: %q", txt)
 	}
 }
+
+func epubAt(t *testing.T, opfPath string, hrefs []string, files [][2]string) string {
+	manifest, spine := "", ""
+	for i, h := range hrefs {
+		id := string(rune('a' + i))
+		manifest += `<item id="` + id + `" href="` + h + `" media-type="application/xhtml+xml"/>`
+		spine += `<itemref idref="` + id + `"/>`
+	}
+	all := [][2]string{
+		{"mimetype", "application/epub+zip"},
+		{"META-INF/container.xml", `<?xml version="1.0"?><container version="1.0" xmlns="urn:oasis:names:tc:opendocument:xmlns:container"><rootfiles><rootfile full-path="` + opfPath + `" media-type="application/oebps-package+xml"/></rootfiles></container>`},
+		{opfPath, `<?xml version="1.0"?><package xmlns="http://www.idpf.org/2007/opf" version="3.0"><metadata xmlns:dc="http://purl.org/dc/elements/1.1/"><dc:title>T</dc:title></metadata><manifest>` + manifest + `</manifest><spine>` + spine + `</spine></package>`},
+	}
+	all = append(all, files...)
+	return zipOf(t, "b.epub", all)
+}
+
+func ch(s string) string {
+	return `<?xml version="1.0"?><html xmlns="http://www.w3.org/1999/xhtml"><head><title>x</title></head><body><p>` + s + `</p></body></html>`
+}
+
+
+// C18 / R18.18: with the package file at the root of the archive resolveHref handed the manifest href back as it is,
+// so "./one.xhtml" (a relative reference to the same directory) matched no ZIP member and the chapter was left out.
+func TestEpubHrefWithDotSegmentAtRoot(t *testing.T) {
+	p := epubAt(t, "content.opf", []string{"./one.xhtml", "sub/../two.xhtml"}, [][2]string{{"one.xhtml", ch("ONE")}, {"two.xhtml", ch("TWO")}})
+	txt, _, err := tabula.Open(p).Text()
+	if err != nil {
+		t.Fatal(err)
+	}
+	if i, j := strings.Index(txt, "ONE"), strings.Index(txt, "TWO"); i < 0 || j < 0 || i > j {
+		t.Fatalf("chapters of the spine missing or out of order: %q", txt)
+	}
+}
